@@ -1139,6 +1139,8 @@ func (w *worker) runCombine(ctx context.Context, task *Task, taskStats *stats.Ma
 	combiners := w.combiners[combineKey]
 	w.mu.Unlock()
 
+	// dirty is set once this run has combined rows into the shared buffers.
+	var dirty bool
 	defer func() {
 		if e := recover(); e != nil {
 			// The (user-supplied) combiner panicked.
@@ -1148,6 +1150,30 @@ func (w *worker) runCombine(ctx context.Context, task *Task, taskStats *stats.Ma
 		}
 		w.mu.Lock()
 		w.combinerStates[combineKey]--
+		if err != nil && dirty {
+			// The buffers hold rows of a failed run; a rerun of the task would
+			// combine them a second time.
+			if task.CombineKey == "" {
+				// The buffers are private to this task: start over.
+				for _, c := range w.combiners[combineKey] {
+					if discardErr := (<-c).Discard(); discardErr != nil {
+						log.Error.Printf("error discarding combiner: %v", discardErr)
+					}
+				}
+				w.combiners[combineKey] = nil
+				w.combinerStates[combineKey] = combinerNone
+			} else if w.combinerErrors[combineKey] == nil {
+				// The buffers are shared with other tasks, so we cannot
+				// recover (see MachineCombiners): fail rather than
+				// produce wrong results.
+				w.combinerErrors[combineKey] = errors.E(errors.Fatal,
+					fmt.Sprintf("machine combine buffer %s holds rows of failed task %s", combineKey, task.Name), err)
+			}
+		}
+		if w.combinerStates[combineKey] == combinerIdle && w.combinerErrors[combineKey] != nil {
+			w.combinerStates[combineKey] = combinerError
+			w.cond.Broadcast()
+		}
 		w.mu.Unlock()
 		if err == nil && task.CombineKey == "" {
 			taskWriteDuration := taskStats.Int("writeDuration")
@@ -1207,6 +1233,7 @@ func (w *worker) runCombine(ctx context.Context, task *Task, taskStats *stats.Ma
 				}
 			}
 
+			dirty = true
 			if combErr := combineShared(ctx, combiners[p], combiner, pcomb.Compact()); combErr != nil {
 				return combErr
 			}
@@ -1220,6 +1247,7 @@ func (w *worker) runCombine(ctx context.Context, task *Task, taskStats *stats.Ma
 	// Flush the remainder.
 	for p, comb := range partitionCombiner {
 		combiner := <-combiners[p]
+		dirty = true
 		if err := combineShared(ctx, combiners[p], combiner, comb.Compact()); err != nil {
 			return err
 		}
